@@ -663,6 +663,436 @@ def apply_in_place(B, ty, rec, v2, rng, top=None):
                 setattr(rec, name, pv)
 
 
+# ------------------------------------------------------------------ message classes of one application
+def build_messages(B, rng, style, defs):
+    """defs: list of (indicator, body record ty).  Returns (app base class, [message classes]) - new classes on every call"""
+    from nasdaq_protocols import itch, ouch, sqf
+    app = f'verif_{style}_{next(_counter)}'
+    core = {'itch': itch, 'ouch': ouch, 'sqf': sqf}[style]
+
+    def init_subclass(cls, **kwargs):
+        kwargs['app_name'] = app
+        super(base, cls).__init_subclass__(**kwargs)
+    base = type(f'VApp{next(_counter)}', (core.Message,), {'__init_subclass__': classmethod(init_subclass), '__test__': False},
+                app_name=app)
+    classes = []
+    for ind, body in defs:
+        kw = {'indicator': ind}
+        if style != 'itch':
+            kw['direction'] = 'outgoing'
+        body_cls = B.build(body)
+        cls = type(f'VMsg{next(_counter)}', (base,), {'BodyRecord': body_cls, '__test__': False}, **kw)
+        classes.append(cls)
+    return base, classes
+
+
+# ------------------------------------------------------------------ one message OBJECT over time: encode, change IN PLACE, encode again
+# "every value assignable through the typed attributes" includes the value a message holds after it has been encoded and then
+# changed below its top level through the references it holds (Model/BinObj.lean, Props/C01Reenc.lean):
+#
+#   msg.f2.f1 = 7            a field of a nested record              ['c', [['f', 2]],           ['set', 1, val]]
+#   msg.f3.f1 = 'x'          an optional record becomes present      ['c', [['f', 3]],           ['set', 1, val]]
+#   msg.f4.append(255)       a list grows                            ['c', [['f', 4]],           ['append', val]]
+#   msg.f5[0].f2 = 'Z'       a field of a record in a list           ['c', [['f', 5], ['i', 0]], ['set', 2, val]]
+#   msg.f1 = 8               a field of the message itself           ['c', [],                   ['set', 1, val]]
+#   ['t']                    msg.to_bytes(), decode, compare the decoded reads with what the message holds NOW
+#
+# A history is generated against the live object: at every moment the POSITIONS the object offers are enumerated (every field of
+# every record reachable through the stores - nested records, records in lists, at any depth -, every list it holds) and the next
+# change is drawn among the (position, kind of change) pairs not yet made, so that one history walks through all of them
+# (up to a cap), each followed by an encoding.  The ops are recorded as values (`sx(ops)` is what the Lean driver parses), so a
+# history replays without the generator.
+LIST_CHANGES = ('append', 'setitem', 'insert', 'del', 'clear', 'extend', 'assign')
+LIST_CAP = 9
+
+
+def ty_at(ty, path):
+    """the schema of the object a path leads to (a record type, or an array type)"""
+    for st in path:
+        if st[0] == 'f':
+            ty = {n: fty for n, fty, _ in fields_of(ty)}[int(st[1])]
+        else:
+            ty = elem_ty(ty[1])
+    return ty
+
+
+def obj_at(msg, path):
+    """follow the references the objects hold, through the typed attributes (`msg.f5[0]`)"""
+    obj = msg
+    for st in path:
+        obj = getattr(obj, f'f{st[1]}') if st[0] == 'f' else obj[int(st[1])]
+    return obj
+
+
+def positions(ty, rec, path=()):
+    """[('set', path, field name, field type) | ('list', path, array type)] for everything reachable through the stores"""
+    _, s = lib()
+    out = []
+    for n, fty, _d in fields_of(ty):
+        out.append(('set', path, n, fty))
+        cur = rec.values.get(f'f{n}')
+        k = kind(fty)
+        p2 = path + (['f', n],)
+        if k in ('record', 'optrec') and isinstance(cur, s._Record):
+            out += positions(fty, cur, p2)
+        elif k == 'arr' and isinstance(cur, list) and constructible(fty):
+            out.append(('list', p2, fty))
+            e = elem_ty(fty[1])
+            if kind(e) == 'record':
+                for i, x in enumerate(cur):
+                    if isinstance(x, s._Record):
+                        out += positions(e, x, p2 + (['i', i],))
+    return out
+
+
+def actual_val(B, ty, v):
+    """the value tree of the object the library really builds from the abstract value (stores as they are, in their order)"""
+    return to_val(ty, B.from_val(ty, v, typed=True))
+
+
+def gen_change(rng, B, msg, pos, how=None):
+    """one in-domain change at a position, values as the library holds them"""
+    if pos[0] == 'set':
+        _, path, n, fty = pos
+        return ['c', list(path), ['set', n, actual_val(B, fty, gen_val(rng, fty, 2))]]
+    _, path, aty = pos
+    e = elem_ty(aty[1])
+    cur = obj_at(msg, path)
+    item = lambda: actual_val(B, e, gen_val(rng, aty[1], 2, as_elem=True))
+    if how == 'append':
+        return ['c', list(path), ['append', item()]]
+    if how == 'setitem':
+        return ['c', list(path), ['setitem', rng.randrange(len(cur)), item()]]
+    if how == 'insert':
+        return ['c', list(path), ['insert', rng.randint(0, len(cur)), item()]]
+    if how == 'del':
+        return ['c', list(path), ['del', rng.randrange(len(cur))]]
+    if how == 'clear':
+        return ['c', list(path), ['clear']]
+    if how == 'extend':
+        return ['c', list(path), ['extend'] + [item() for _ in range(rng.randint(1, 2))]]
+    return ['c', list(path), ['assign'] + [item() for _ in range(rng.choice([0, 1, 2, 3]))]]
+
+
+def next_change(rng, B, body, msg, visited):
+    """the next (position, kind) of the object as it is now that no change has been made at yet; None when all have been"""
+    cands = []
+    for pos in positions(body, msg.record):
+        if pos[0] == 'set':
+            key = ('set', sx(list(pos[1])), pos[2])
+            if key not in visited:
+                w = 6.0 if pos[1] else 1.5
+                if pos[1] and pos[1][-1][0] == 'f' and kind(ty_at(body, pos[1])) == 'optrec' and not obj_at(msg, pos[1]).values:
+                    w = 12.0                 # an optional record that is absent now and becomes present by this assignment
+                cands.append((w, key, pos, None))
+            continue
+        n = len(obj_at(msg, pos[1]))
+        lo, hi = int_range(pos[2][2], pos[2][3])
+        room = n < min(LIST_CAP, hi)
+        for how in LIST_CHANGES:
+            key = ('list', sx(list(pos[1])), how)
+            if key in visited or (how in ('setitem', 'del') and n == 0) or (how in ('append', 'insert', 'extend') and not room):
+                continue
+            if how == 'extend' and n + 2 > min(LIST_CAP, hi):
+                continue
+            cands.append((1.0 if how in ('del', 'clear', 'assign') else 4.0, key, pos, how))
+    if not cands:
+        return None
+    _, key, pos, how = rng.choices(cands, weights=[c[0] for c in cands])[0]
+    visited.add(key)
+    return gen_change(rng, B, msg, pos, how)
+
+
+def change_label(body, msg, op):
+    """what kind of place the change is made at (for the input distribution in the evidence)"""
+    path, mu = op[1], op[2]
+    if mu[0] == 'set':
+        if not path:
+            return 'body-field'
+        tgt = ty_at(body, path)
+        where = 'element-field' if path[-1][0] == 'i' else f'nested-field-depth{min(len([p for p in path if p[0] == "f"]), 3)}'
+        if kind(tgt) == 'optrec' and path[-1][0] == 'f' and len(obj_at(msg, path).values) == 0:
+            where = 'optional-record-becomes-present'
+        return where
+    return 'list-' + mu[0] + ('' if len(path) == 1 else '-nested')
+
+
+def apply_change(B, body, msg, op):
+    """make the change on the live message through the typed attributes / the list the message holds"""
+    path, mu = op[1], op[2]
+    tgt = obj_at(msg, path)
+    ty = ty_at(body, path)
+    if mu[0] == 'set':
+        fty = {n: fty for n, fty, _ in fields_of(ty)}[int(mu[1])]
+        setattr(tgt, f'f{mu[1]}', B.from_val(fty, mu[2], typed=True))
+        return
+    if not isinstance(tgt, list):
+        raise TypeError(f'{sx(path)} does not lead to a list')
+    e = elem_ty(ty[1])
+    mk = lambda v: B.from_val(e, v, typed=True)
+    if mu[0] == 'append':
+        tgt.append(mk(mu[1]))
+    elif mu[0] == 'setitem':
+        tgt[int(mu[1])] = mk(mu[2])
+    elif mu[0] == 'insert':
+        tgt.insert(int(mu[1]), mk(mu[2]))
+    elif mu[0] == 'del':
+        del tgt[int(mu[1])]
+    elif mu[0] == 'clear':
+        tgt.clear()
+    elif mu[0] == 'extend':
+        tgt.extend([mk(v) for v in mu[1:]])
+    elif mu[0] == 'assign':
+        tgt[:] = [mk(v) for v in mu[1:]]
+    else:
+        raise ValueError(mu[0])
+
+
+def ops_from_parsed(p):
+    """parse_sx output -> ops"""
+    out = []
+    for op in p:
+        if op[0] == 't':
+            out.append(['t'])
+            continue
+        path = [[st[0], int(st[1])] for st in op[1]]
+        mu = op[2]
+        if mu[0] == 'set':
+            m2 = ['set', int(mu[1]), val_from_parsed(mu[2])]
+        elif mu[0] == 'append':
+            m2 = ['append', val_from_parsed(mu[1])]
+        elif mu[0] in ('setitem', 'insert'):
+            m2 = [mu[0], int(mu[1]), val_from_parsed(mu[2])]
+        elif mu[0] == 'del':
+            m2 = ['del', int(mu[1])]
+        elif mu[0] == 'clear':
+            m2 = ['clear']
+        else:
+            m2 = [mu[0]] + [val_from_parsed(v) for v in mu[1:]]
+        out.append(['c', path, m2])
+    return out
+
+
+def encode_and_read_back(base, classes, k, body, msg, tail, judge=True):
+    """one `to_bytes()` of the message as it is now, judged by the statement of C01: (failure or None, observable entry)"""
+    n, b = guarded_call(msg.to_bytes)
+    b = bytes(b)
+    if judge and n != len(b):
+        return f'reported length {n} != {len(b)} bytes', None
+    if not judge:
+        return None, None                  # the message holds a value outside the round-trip domain: nothing is claimed
+    m, dmsg = guarded_call(lambda: base.from_bytes(b + tail))
+    if type(dmsg) is not classes[k]:
+        return f'decoded as {type(dmsg).__name__}, not the class that was encoded', None
+    if m != len(b):
+        return f'decode consumed {m} of {len(b)} bytes ({len(tail)} unrelated bytes follow)', None
+    diff = reads_differ(body, msg.record, dmsg.record)
+    for name_idx, fty, _d in body[1:]:
+        diff = diff or reads_differ(fty, getattr(msg, f'f{name_idx}'), getattr(dmsg, f'f{name_idx}'), f'msg.f{name_idx}')
+    if diff:
+        return f'the message holds one value, its encoding decodes to another: {diff}', None
+    rn, rb = guarded_call(dmsg.to_bytes)
+    if bytes(rb) != b or rn != n:
+        return 're-encoding the decoded message gives different bytes', None
+    return None, f't ok {n} {len(b)} {m} {k} {sx(to_val(body, dmsg.record))} true'
+
+
+def reenc_history(B, style, defs, k, v, tail, which, ops=None, rng=None, cap=0, labels=None):
+    """Run a history on ONE message object of freshly built classes.  `which`: 'encoded' - the message built from `v`;
+    'decoded' - the message object `from_bytes` returned for its encoding.  `ops` None: generate while running (`rng`, `cap`
+    changes).  Returns (failure (index of the op, text, 'build' | 'enumerate' | 'change' | 'encode') or None, ops performed, body
+    value at the start, observable entries)."""
+    ind, body = defs[k]
+    done, entries, actual0 = [], [], None
+    try:
+        base, classes = build_messages(B, None, style, defs)
+        msg = classes[k]()
+        rec = B.from_val(body, v, typed=True)
+        for name in list(rec.values):
+            setattr(msg, name, rec.values[name])
+        if which == 'decoded':
+            _, b0 = guarded_call(msg.to_bytes)
+            _, msg = guarded_call(lambda: base.from_bytes(bytes(b0)))
+        actual0 = to_val(body, msg.record)
+    except Exception as e:  # noqa
+        return (-1, f'building the {style} message raised {err_name(e)}: {e!s:.80}', 'build'), done, actual0, entries
+    visited = set()
+    todo = list(ops) if ops is not None else None
+    n_changes = 0
+    while True:
+        if todo is not None:
+            if not todo:
+                break
+            op = todo.pop(0)
+        else:
+            last_t = bool(done) and done[-1] == ['t']
+            if not done or (not last_t and rng.random() < 0.85):
+                op = ['t']
+            elif n_changes >= cap:
+                if last_t:
+                    break
+                op = ['t']
+            else:
+                try:
+                    op = next_change(rng, B, body, msg, visited)
+                except Exception as e:  # noqa
+                    return (len(done), f'enumerating what the message holds raised {err_name(e)}: {e!s:.80}', 'enumerate'), done, actual0, entries
+                if op is None:
+                    if last_t:
+                        break
+                    op = ['t']
+        done.append(op)
+        i = len(done) - 1
+        if op[0] == 'c':
+            n_changes += 1
+            try:
+                if labels is not None:
+                    labels.append(change_label(body, msg, op))
+                apply_change(B, body, msg, op)
+                entries.append('c ' + sx(to_val(body, msg.record)))
+            except Exception as e:  # noqa
+                return (i, f'the change {sx(op[1:])[:120]} through the typed attributes raised {err_name(e)}: {e!s:.80}', 'change'), done, actual0, entries
+            continue
+        try:
+            now = to_val(body, msg.record)
+            judge = in_domain(body, now)
+            bad, entry = encode_and_read_back(base, classes, k, body, msg, tail, judge)
+        except Exception as e:  # noqa
+            bad, entry = f'round trip raised {err_name(e)}: {e!s:.80}', None
+        if bad:
+            nth = sum(1 for o in done if o == ['t'])
+            prev = [sx(o[1:]) for o in done if o[0] == 'c']
+            after = f' after the in-place change {prev[-1][:160]}' if prev else ''
+            return (i, f'{which} message, to_bytes() call {nth}{after}: {bad}', 'encode'), done, actual0, entries
+        entries.append(entry)
+    return None, done, actual0, entries
+
+
+def reenc_replay_dict(style, defs, k, v, tail, which, ops):
+    reg = [[i, j, body[1:]] for j, (i, body) in enumerate(defs)]
+    return {'kind': 'msg-reenc', 'style': style, 'reg': sx(reg), 'cls': k, 'val': sx(v), 'tail': tail.hex(), 'which': which,
+            'ops': sx(ops)}
+
+
+def reenc_from_replay(rep):
+    reg = parse_sx(rep['reg'])[0]
+    defs = [(int(i), ['record'] + [[int(n), ty_from_parsed(t), val_from_parsed(d)] for n, t, d in fs]) for i, _c, fs in reg]
+    ops = ops_from_parsed(parse_sx(rep['ops'])[0]) if rep['ops'] != '()' else []
+    return rep['style'], defs, int(rep['cls']), parse_val(rep['val']), bytes.fromhex(rep.get('tail', '')), rep.get('which', 'encoded'), ops
+
+
+def restrict(ty, v, as_elem=False):
+    """the value with everything dropped that the (smaller) schema has no place for"""
+    k = kind(ty)
+    if k in ('record', 'optrec') and v != 'none' and v[0] == 'r':
+        ftypes = {n: fty for n, fty, _ in fields_of(ty)}
+        return ['r'] + [[n, restrict(ftypes[n], x)] for n, x in v[1:] if n in ftypes]
+    if k == 'arr' and v != 'none' and v[0] == 'l':
+        return ['l'] + [restrict(elem_ty(ty[1]), x, True) for x in v[1:]]
+    return v
+
+
+def _drop_field(ty, tpath, name):
+    """the schema without field `name` of the record the type path (field names; arrays are transparent) leads to"""
+    k = kind(ty)
+    if k == 'arr':
+        return ['arr', _drop_field(ty[1], tpath, name)] + ty[2:]
+    if not tpath:
+        return [k] + [f for f in fields_of(ty) if f[0] != name]
+    return [k] + [[n, _drop_field(fty, tpath[1:], name) if n == tpath[0] else fty, d] for n, fty, d in fields_of(ty)]
+
+
+def _record_nodes(ty, tpath=()):
+    k = kind(ty)
+    if k == 'arr':
+        yield from _record_nodes(ty[1], tpath)
+    elif k in ('record', 'optrec'):
+        yield tpath, ty
+        for n, fty, _d in fields_of(ty):
+            yield from _record_nodes(fty, tpath + (n,))
+
+
+def shrink_reenc(B, style, defs, k, v, tail, which, ops, fails):
+    """shorter history, single-class registry, fewer fields - keeping `fails(defs, k, v, ops)`"""
+    import time
+    deadline = time.time() + 20
+    ind, body = defs[k]
+    if len(defs) > 1 and fails([(ind, body)], 0, v, ops):
+        defs, k = [(ind, body)], 0
+    # the last change alone between two encodings, else drop ops one at a time
+    last_c = max((i for i, o in enumerate(ops) if o[0] == 'c'), default=None)
+    if last_c is not None and fails(defs, k, v, [['t'], ops[last_c], ['t']]):
+        ops = [['t'], ops[last_c], ['t']]
+    progress = True
+    while progress and time.time() < deadline:
+        progress = False
+        for i in range(len(ops) - 1):
+            cand = ops[:i] + ops[i + 1:]
+            if time.time() > deadline:
+                break
+            if fails(defs, k, v, cand):
+                ops, progress = cand, True
+                break
+    # fields no change goes through
+    def used(ops):
+        u = set()
+        for o in ops:
+            if o[0] != 'c':
+                continue
+            tp = tuple(int(st[1]) for st in o[1] if st[0] == 'f')
+            for j in range(len(tp)):
+                u.add((tp[:j], tp[j]))
+            if o[2][0] == 'set':
+                u.add((tp, int(o[2][1])))
+        return u
+
+    def retarget(body2, ops):
+        out = []
+        for o in ops:
+            if o[0] != 'c':
+                out.append(o)
+                continue
+            ty = ty_at(body2, o[1])
+            mu = o[2]
+            if mu[0] == 'set':
+                fty = {n: fty for n, fty, _ in fields_of(ty)}[int(mu[1])]
+                mu = ['set', mu[1], restrict(fty, mu[2])]
+            elif mu[0] in ('append',):
+                mu = [mu[0], restrict(elem_ty(ty[1]), mu[1], True)]
+            elif mu[0] in ('setitem', 'insert'):
+                mu = [mu[0], mu[1], restrict(elem_ty(ty[1]), mu[2], True)]
+            elif mu[0] in ('extend', 'assign'):
+                mu = [mu[0]] + [restrict(elem_ty(ty[1]), x, True) for x in mu[1:]]
+            out.append(['c', o[1], mu])
+        return out
+    progress = True
+    while progress and time.time() < deadline:
+        progress = False
+        ind, body = defs[k]
+        u = used(ops)
+        for tpath, node in _record_nodes(body):
+            for n, _fty, _d in fields_of(node):
+                if (tpath, n) in u or time.time() > deadline:
+                    continue
+                try:
+                    body2 = _drop_field(body, list(tpath), n)
+                    d2 = defs[:k] + [(ind, body2)] + defs[k + 1:]
+                    v2, ops2 = restrict(body2, v), retarget(body2, ops)
+                    if fails(d2, k, v2, ops2):
+                        defs, v, ops, progress = d2, v2, ops2, True
+                        break
+                except Exception:  # noqa
+                    continue
+            if progress:
+                break
+    # values of the first assignment that are not needed
+    for n in [n for n, _ in v[1:]]:
+        v2 = ['r'] + [x for x in v[1:] if x[0] != n]
+        if time.time() < deadline and fails(defs, k, v2, ops):
+            v = v2
+    return defs, k, v, ops
+
+
 # ------------------------------------------------------------------ families of message classes declared by INHERITANCE
 # "every message definition that can be composed" includes a message class derived from another registered message class
 # (`class ReplaceOrder(EnterOrder, indicator=ord('U'))`) with a body that extends the parent's body, a body of its own, or the
